@@ -56,7 +56,7 @@ Lemma dtype_conflict_no_change fuel ct c st ci name l dtype prefix nm :
   resolve_name ct st c ci name prefix = Ok nm ->
   dom_len1 ci (Some l) dtype = Err eObjectInit ->
   dom_call (S fuel) ct c st name (Some l) prefix dtype = (st, CErr eObjectInit None).
-Proof. intros Hc Hn Hl. cbn [dom_call]. rewrite Hc, Hn, Hl. reflexivity. Qed.
+Proof. intros Hc Hn Hl. cbn [dom_call]. unfold dom_body. rewrite Hc, Hn, Hl. reflexivity. Qed.
 
 Lemma init_shape ct n : heap (init ct n) = [] /\ length (classes (init ct n)) = length ct.
 Proof. unfold init; cbn. split; [reflexivity | apply map_length]. Qed.
